@@ -26,6 +26,9 @@ pub fn one_tx_k(out: &mut Out, t: &Transaction, k: bool) {
     let res = Out::guard(|| format!("ok {} {} {} {} {}", t.size(), t.weight(), t.vsize(), t.discount_weight(), t.discount_vsize()));
     if k {
         out.k(format!("sizes {}", hex(&b)), res.clone());
+    } else {
+        // field-wise in-memory transport (EV.Driver.MemTx): the model computes the sizes of the value itself
+        out.k(format!("sizesmem {}", gen::memtx_hex(t)), res.clone());
     }
     out.s("sizes_never_panic", res != "panic", || hex(&b));
     if res == "panic" { return; }
